@@ -10,7 +10,7 @@ use crate::internal::streamname::{
 };
 use crate::internal::stringpool::{StringPool, StringPoolBuilder};
 use crate::internal::summary::SummaryInfo;
-use crate::internal::table::{Rows, Table};
+use crate::internal::table::{Rows, Table, MAX_NUM_TABLE_ROWS};
 use crate::internal::value::{Value, ValueRef};
 use cfb;
 use std::borrow::Borrow;
@@ -719,6 +719,24 @@ impl<F: Read + Write + Seek> Package<F> {
         check_catalog_rows(&make_columns_table(false), &columns_rows)?;
         check_catalog_rows(&make_tables_table(false), &tables_rows)?;
         check_catalog_rows(&make_validation_table(false), &validation_rows)?;
+        self.check_catalog_room(
+            COLUMNS_TABLE_NAME,
+            "Table",
+            &table_name,
+            columns_rows.len(),
+        )?;
+        self.check_catalog_room(
+            TABLES_TABLE_NAME,
+            "Name",
+            &table_name,
+            tables_rows.len(),
+        )?;
+        self.check_catalog_room(
+            VALIDATION_TABLE_NAME,
+            "Table",
+            &table_name,
+            validation_rows.len(),
+        )?;
         self.insert_rows(Insert::into(COLUMNS_TABLE_NAME).rows(columns_rows))?;
         self.insert_rows(Insert::into(TABLES_TABLE_NAME).rows(tables_rows))?;
         let long_string_refs = self.string_pool.long_string_refs();
@@ -727,6 +745,44 @@ impl<F: Read + Write + Seek> Package<F> {
         self.insert_rows(
             Insert::into(VALIDATION_TABLE_NAME).rows(validation_rows),
         )?;
+        Ok(())
+    }
+
+    /// Checks that the given catalog table has room for `num_new_rows` more
+    /// rows and holds no rows for `table_name` yet (such rows, left behind by
+    /// direct edits of the catalog tables, would collide with the new ones).
+    fn check_catalog_room(
+        &mut self,
+        catalog_table_name: &str,
+        key_column_name: &str,
+        table_name: &str,
+        num_new_rows: usize,
+    ) -> io::Result<()> {
+        if !self.tables.contains_key(catalog_table_name) {
+            // (The validation table does not exist yet while it is itself
+            // being created.)
+            return Ok(());
+        }
+        let num_rows =
+            self.select_rows(Select::table(catalog_table_name))?.len();
+        if num_rows + num_new_rows > MAX_NUM_TABLE_ROWS {
+            invalid_input!(
+                "Cannot create table {:?}: table {:?} would have more than \
+                 {} rows",
+                table_name,
+                catalog_table_name,
+                MAX_NUM_TABLE_ROWS
+            );
+        }
+        let query = Select::table(catalog_table_name)
+            .with(Expr::col(key_column_name).eq(Expr::string(table_name)));
+        if self.select_rows(query)?.len() > 0 {
+            already_exists!(
+                "Table {:?} already has rows in table {:?}",
+                table_name,
+                catalog_table_name
+            );
+        }
         Ok(())
     }
 
